@@ -4,6 +4,7 @@ import MesaModel.Proofs.DevsHeap
 import MesaModel.Proofs.DevsLive
 import MesaModel.Proofs.DevsOrder
 import MesaModel.Proofs.DevsDoomed
+import MesaModel.Proofs.DevsShared
 /-!
 # C14 — the simulators run each live event once, in (time, priority, FIFO) order
 
@@ -209,16 +210,19 @@ theorem C14_priority_order_generated :
 
 /-! ### at least once
 
-`Served k t s`: the user event with tag `k`, scheduled for time `t`, is waiting on the list (neither cancelled nor with a dead
-callable) or has been executed with the clock at exactly `t`.  `ProgsSpare k s`: no callable (event program or step body) cancels
-tag `k` or drops its callable; `ReachableSparing k s s'`: `s'` is reached from `s` by any further history whose top-level
-commands do not cancel / drop tag `k` either (scheduling, other cancellations, runs of any kind are all allowed). -/
+`Served k c t s`: the user event with tag `k` and callable object `c`, scheduled for time `t`, is waiting on the list (neither
+cancelled nor with a dead callable) or has been executed with the clock at exactly `t`.  `ProgsSpare k c s`: no callable (event
+program or step body) cancels tag `k` or drops the callable `c`; `ReachableSparing k c s s'`: `s'` is reached from `s` by any
+further history whose top-level commands do not cancel `k` / drop `c` either (scheduling — also of `c` again —, cancellations of
+other events, *including events that share the callable `c`*, drops of other callables, runs of any kind are all allowed).
+For an ordinary scheduling call the callable is fresh and `c = k`. -/
 
 /-- **At least once (absolute scheduling).**  An event that was accepted by `schedule_event_absolute` and that nobody cancels or
     drops stays served through every further history: it is never lost, and when it runs the clock is the time it was
     scheduled for. -/
 theorem C14_spared_event_is_served {s s₀ s' : Sim} {t : Int} {p a : Nat} (hs : schedAbs s t p a = .ok s₀)
-    (hps : ProgsSpare s.nextTag s) (hr : ReachableSparing s.nextTag s₀ s') : Served s.nextTag t s' := by
+    (hps : ProgsSpare s.nextTag s.nextTag s) (hr : ReachableSparing s.nextTag s.nextTag s₀ s') :
+    Served s.nextTag s.nextTag t s' := by
   unfold schedAbs at hs
   split at hs
   · simp at hs
@@ -230,7 +234,8 @@ theorem C14_spared_event_is_served {s s₀ s' : Sim} {t : Int} {p a : Nat} (hs :
 
 /-- **At least once (relative scheduling, `schedule_event_now`, `schedule_event_next_tick`).** -/
 theorem C14_spared_event_is_served_rel {s s₀ s' : Sim} {d : Int} {p a : Nat} (hs : schedRel s d p a = .ok s₀)
-    (hps : ProgsSpare s.nextTag s) (hr : ReachableSparing s.nextTag s₀ s') : Served s.nextTag (s.now + d) s' := by
+    (hps : ProgsSpare s.nextTag s.nextTag s) (hr : ReachableSparing s.nextTag s.nextTag s₀ s') :
+    Served s.nextTag s.nextTag (s.now + d) s' := by
   unfold schedRel at hs
   split at hs
   · simp at hs
@@ -244,7 +249,7 @@ theorem C14_spared_event_is_served_rel {s s₀ s' : Sim} {d : Int} {p a : Nat} (
     any reachable state, after any further history: after `run_until(T)` an uncancelled, undropped event scheduled for
     `t ≤ T` is in the execution log, with the clock at `t`.  With `C14_never_twice`: exactly once. -/
 theorem C14_spared_due_event_executed {s s₀ s' s'' : Sim} {t T : Int} {p a f : Nat} (h : Reachable s)
-    (hs : schedAbs s t p a = .ok s₀) (hps : ProgsSpare s.nextTag s) (hr : ReachableSparing s.nextTag s₀ s')
+    (hs : schedAbs s t p a = .ok s₀) (hps : ProgsSpare s.nextTag s.nextTag s) (hr : ReachableSparing s.nextTag s.nextTag s₀ s')
     (hT : s'.now ≤ T) (hrun : runUntil f s' T = some s'') (htT : t ≤ T) :
     ∃ i, LogEntry.user i s.nextTag t ∈ s''.log := by
   have h0 : Reachable s₀ := by
@@ -254,10 +259,78 @@ theorem C14_spared_due_event_executed {s s₀ s' s'' : Sim} {t T : Int} {p a f :
   have h' : Reachable s' := reachableFrom_reachable h0 (reachableSparing_from hr)
   have hserved := C14_spared_event_is_served hs hps (.until hr hT hrun)
   obtain ⟨_, hpost, _⟩ := runUntil_post (reachable_inv h').1 hrun
-  rcases hserved with ⟨e, he, _, _, h3, h4, _⟩ | hlog
+  rcases hserved with ⟨e, he, _, _, _, h3, h4, _⟩ | hlog
   · have := hpost e he h4
     omega
   · exact hlog
+
+/-! ### shared callables
+
+The same callable object may be scheduled many times (`again c d p`: the program calls `schedule_event_relative` once more with
+the callable `c` it still holds — a bound method `self.act` re-scheduled again and again).  Events sharing a callable are
+independent of each other (each has its own handle: cancelling one leaves the others alone) except for the life of the callable:
+when the program drops its last strong reference to `c`, every one of them is dead. -/
+
+/-- **At least once, shared callable.**  A further event scheduled with a callable `c` the program still holds is never lost
+    as long as nobody cancels *this* event or drops `c` — cancelling any other event that shares `c` is allowed. -/
+theorem C14_shared_callable_event_is_served {s s₀ s' : Sim} {c : Nat} {d : Int} {p : Nat}
+    (hs : again s c d p = some (.ok s₀)) (hps : ProgsSpare s.nextTag c s) (hr : ReachableSparing s.nextTag c s₀ s') :
+    Served s.nextTag c (s.now + d) s' := by
+  unfold again at hs
+  split at hs
+  · simp at hs
+  · rename_i a _
+    simp only [Option.some.injEq] at hs
+    unfold schedRel at hs
+    split at hs
+    · simp at hs
+    · split at hs
+      · simp at hs
+      · simp only [Except.ok.injEq] at hs
+        subst hs
+        exact (served_stays (pushUser_serves s (s.now + d) p a (some c)) hps hr).1
+
+/-- ... and `run_until(T)` executes it if it is due, although other events sharing its callable were cancelled. -/
+theorem C14_shared_due_event_executed {s s₀ s' s'' : Sim} {c : Nat} {d T : Int} {p f : Nat} (h : Reachable s)
+    (hs : again s c d p = some (.ok s₀)) (hps : ProgsSpare s.nextTag c s) (hr : ReachableSparing s.nextTag c s₀ s')
+    (hT : s'.now ≤ T) (hrun : runUntil f s' T = some s'') (htT : s.now + d ≤ T) :
+    ∃ i, LogEntry.user i s.nextTag (s.now + d) ∈ s''.log := by
+  have h0 : Reachable s₀ := by
+    have : doCmd s (.again c d p) = s₀ := by simp [doCmd, hs]
+    rw [← this]
+    exact .cmd _ h
+  have h' : Reachable s' := reachableFrom_reachable h0 (reachableSparing_from hr)
+  have hserved := C14_shared_callable_event_is_served hs hps (.until hr hT hrun)
+  obtain ⟨_, hpost, _⟩ := runUntil_post (reachable_inv h').1 hrun
+  rcases hserved with ⟨e, he, _, _, _, h3, h4, _⟩ | hlog
+  · have := hpost e he h4
+    omega
+  · exact hlog
+
+/-- **Once a callable is collected, no event sharing it ever executes.**  After the program has dropped its last strong reference
+    to a callable `c` it created earlier, in every state of every further history: the program cannot schedule `c` again, every
+    pending event scheduled with `c` — however many there are — has a dead weak reference, and when such an event is popped
+    nothing runs (the log does not grow). -/
+theorem C14_collected_callable_never_runs {s s' : Sim} {c : Nat} (hc : c < s.nextTag) (hr : ReachableFrom (dropFn s c) s') :
+    s'.fns.lookup c = none ∧ (∀ d p, again s' c d p = none) ∧
+    (∀ e ∈ s'.pending, e.isStep = false → e.fn = c → e.dead = true) ∧
+    ∀ e rest, popLive s'.pending = some (e, rest) → e.isStep = false → e.fn = c →
+      (exec (popped s' e rest) e).log = s'.log := by
+  have hcol := collected_stays (dropFn_collects s hc) hr
+  refine ⟨hcol.unheld, fun d p => by simp [again, hcol.unheld], hcol.dead, ?_⟩
+  intro e rest hp hu hf
+  have hd := hcol.dead e (popLive_mem hp).1 hu hf
+  rw [exec_log]; unfold entryOf; rw [if_pos hd]; simp [popped]
+
+/-- **Dropping a callable kills every pending event that shares it**: none of them is in the execution log of any state
+    reachable afterwards (`C14_collected_never_executes` for all sharers at once). -/
+theorem C14_drop_kills_every_sharer {s s' : Sim} (h : Reachable s) {c : Nat} {e : Ev} (he : e ∈ s.pending)
+    (hu : e.isStep = false) (hf : e.fn = c) (hr : ReachableFrom (dropFn s c) s') : e.id ∉ logIds s'.log := by
+  have h0 : Reachable (dropFn s c) := Reachable.cmd (.drop c) h
+  have hmem : { e with dead := true } ∈ (dropFn s c).pending := by
+    simp only [dropFn, List.mem_map]
+    exact ⟨e, he, by simp [hu, hf]⟩
+  exact C14_collected_never_executes (e := { e with dead := true }) h0 hmem rfl hr
 
 
 /-! ### order of execution with nested scheduling
@@ -293,9 +366,9 @@ example : ((runUntil 10 ex1 4096).map fun s => (s.now, s.log.map (·.id), s.gone
 example : schedRel ex1 (-1) 5 0 = .error .past := rfl
 /-- the hypotheses of the at-least-once theorems are met by the event with tag 2 of `ex1` (program 1 cancels tag 0 only);
     the event with tag 0 is cancelled from inside program 1 and is indeed not served -/
-example : ProgsSpare 2 ex0 := by
+example : ProgsSpare 2 2 ex0 := by
   refine ⟨fun a => ?_, by simp [Spares, ex0, init]⟩
-  show Spares 2 (exProg a)
+  show Spares 2 2 (exProg a)
   unfold Spares exProg
   split <;> simp
 example : ((runUntil 10 ex1 4096).map fun s => s.log) =
@@ -305,6 +378,35 @@ example : ((runUntil 10 ex1 4096).map fun s => s.log) =
     `C14_execution_order` is needed and is tight -/
 example : ((runUntilT 10 ex1 4096).map fun p => p.2.map fun y => (y.1.id, y.1.prio, y.2)) =
     some [(2, 1, 3), (1, 10, 3), (3, 5, 4)] := by decide
+
+/-- shared callable: the callable of tag 0 is scheduled three times (tags 0, 1, 2 share `fn = 0`); tag 1 is cancelled — tags 0
+    and 2 still run (independence); a HIGH-priority event (tag 3, program 1) drops callable 0 at time 2048, just before tag 2
+    would run: tag 2 (id 2) is popped and discarded, and the program can no longer schedule the callable -/
+def shProg : Nat → List Cmd
+  | 1 => [.drop 0, .again 0 1024 5]
+  | _ => []
+def sh0 : Sim := init .devs shProg []
+def sh1 : Sim := doCmd (doCmd (doCmd (doCmd sh0 (.schedAbs 1024 5 0)) (.again 0 1024 5)) (.again 0 2048 5)) (.cancel 1)
+example : Reachable sh1 := .cmd _ (.cmd _ (.cmd _ (.cmd _ (.init _ _ _))))
+example : (sh1.pending.map fun e => (e.tag, e.fn, e.cancelled)) = [(0, 0, false), (1, 0, true), (2, 0, false)] := by decide
+example : ((runUntil 10 sh1 4096).map fun s => (s.log.map (·.id), s.gone)) = some ([0, 2], [1]) := by decide
+def sh2 : Sim := doCmd sh1 (.schedAbs 2048 1 1)
+example : ((runUntil 10 sh2 4096).map fun s => (s.log.map (·.id), s.gone, s.fns, s.nextId)) =
+    some ([0, 3], [1, 2], [(3, 1)], 4) := by decide
+example : again sh1 0 0 5 ≠ none ∧ again (dropFn sh1 0) 0 0 5 = none := by decide
+/-- the hypotheses of `C14_shared_callable_event_is_served` are met by tag 2 (callable 0) when program 1 cancels the two OTHER
+    events sharing callable 0 instead of dropping it: tag 2 runs all the same -/
+def shProgQ : Nat → List Cmd
+  | 1 => [.cancel 0, .cancel 1]
+  | _ => []
+def sq0 : Sim := init .devs shProgQ []
+def sq1 : Sim := doCmd (doCmd (doCmd (doCmd sq0 (.schedAbs 1024 5 0)) (.again 0 1024 5)) (.again 0 2048 5)) (.schedAbs 512 5 1)
+example : ProgsSpare 2 0 sq0 := by
+  refine ⟨fun a => ?_, by simp [Spares, sq0, init]⟩
+  show Spares 2 0 (shProgQ a)
+  unfold Spares shProgQ
+  split <;> simp
+example : ((runUntil 10 sq1 4096).map fun s => (s.log, s.gone)) = some ([.user 3 3 512, .user 2 2 2048], [0, 1]) := by decide
 end Example
 
 end Mesa.Devs
